@@ -14,7 +14,8 @@ import subprocess
 import sys
 
 VERIF = os.path.dirname(os.path.dirname(os.path.abspath(__file__)))
-S = "/var/tmp/sv-mut"
+S = os.environ.get("SV_MUT_SCRATCH", "/var/tmp/sv-mut")
+TARGET = os.environ.get("SV_MUT_TARGET", os.path.join(VERIF, ".cache", "target-mut"))
 
 
 def sh(cmd, **kw):
@@ -30,7 +31,7 @@ def fresh_copy():
 
 
 def run_check(pid):
-    env = dict(os.environ, SV_REPO=S + "/repo", SV_TARGET_DIR=VERIF + "/.cache/target-mut", SV_EVIDENCE_DIR=S + "/evidence")
+    env = dict(os.environ, SV_REPO=S + "/repo", SV_TARGET_DIR=TARGET, SV_EVIDENCE_DIR=S + "/evidence")
     r = subprocess.run([VERIF + "/sv", "check", pid, "--tier", "quick"], cwd=VERIF, env=env, stdout=subprocess.PIPE, stderr=subprocess.STDOUT, text=True)
     return r.returncode, r.stdout
 
@@ -91,7 +92,14 @@ def mutants_for(pid):
 
 
 def main():
-    ids = [a.upper() for a in sys.argv[1:]]
+    args = sys.argv[1:]
+    jobs = 1
+    if args and args[0].startswith("-j"):
+        jobs = int(args[0][2:] or args[1])
+        args = args[1:] if len(args[0]) > 2 else args[2:]
+    if jobs > 1:
+        return main_parallel(jobs, [a.upper() for a in args])
+    ids = [a.upper() for a in args]
     if not ids:
         ids = sorted({os.path.basename(d) for d in glob.glob(os.path.join(VERIF, "mutants", "C*")) + glob.glob(os.path.join(VERIF, "controls", "C*"))})
     results = []
@@ -102,6 +110,38 @@ def main():
     with open(os.path.join(S, "mutants_result.json"), "w") as fh:
         json.dump(results, fh, indent=1)
     return 1 if missed else 0
+
+
+def main_parallel(jobs, ids):
+    """split the property ids over `jobs` worker processes, each with its own scratch copy and cargo target directory"""
+    if not ids:
+        ids = sorted({os.path.basename(d) for d in glob.glob(os.path.join(VERIF, "mutants", "C*")) + glob.glob(os.path.join(VERIF, "controls", "C*"))})
+    weight = {i: len(mutants_for(i)) + len(benign_for(i)) for i in ids}
+    buckets = [[] for _ in range(jobs)]
+    for i in sorted(ids, key=lambda x: -weight[x]):
+        min(buckets, key=lambda b: sum(weight[x] for x in b)).append(i)
+    procs = []
+    for k, b in enumerate(buckets):
+        if not b:
+            continue
+        env = dict(os.environ, SV_MUT_SCRATCH="/var/tmp/sv-mut-w%d" % k, SV_MUT_TARGET=os.path.join(VERIF, ".cache", "target-mut-w%d" % k))
+        procs.append((k, subprocess.Popen([sys.executable, os.path.abspath(__file__)] + b, env=env, stdout=open("/var/tmp/sv-mut-w%d.log" % k, "w"), stderr=subprocess.STDOUT)))
+    rc = 0
+    for k, p in procs:
+        rc |= p.wait()
+    results = []
+    for k, p in procs:
+        f = "/var/tmp/sv-mut-w%d/mutants_result.json" % k
+        if os.path.exists(f):
+            results += json.load(open(f))
+    os.makedirs(S, exist_ok=True)
+    with open(os.path.join(S, "mutants_result.json"), "w") as fh:
+        json.dump(results, fh, indent=1)
+    bad = [r for r in results if r[2] not in ("caught", "silent")]
+    print("%d changes, %d ok, %d not" % (len(results), len(results) - len(bad), len(bad)))
+    for r in bad:
+        print("  ", r[0], r[1], r[2], r[3][:160])
+    return 1 if bad or rc else 0
 
 
 if __name__ == "__main__":
